@@ -308,6 +308,17 @@ def run_prop(prop, tier, seed, replay=None, extra_oracles=(), extra_part=None, e
                 chk.coverage["traces_validated_against_impl"] += 1
     if prop == "C04":
         real_slots(chk, 4 if tier == "quick" else 24)
+        from reaper_util import stopped_task
+
+        for par in (False, True):     # a stopped task still occupies its slot / still excludes the others
+            msg = stopped_task(chk, par)
+            chk.coverage["evaluations"] += 1
+            chk.count("real", "stopped-task")
+            if msg is not None:
+                chk.violation("impl-violation", "real processes, a task is stopped and continued (%s): %s" % ("--jobs 2" if par else "sequential", msg),
+                              {"input": {"scenario": "stopped-task", "parallel": par}, "impl_observation": msg}, match_key={"real": "stopped-task"}, size=3)
+            else:
+                chk.coverage["traces_validated_against_impl"] += 1
     if extra_part is not None:
         extra_part(chk, tier)
     if prop == "C09":
